@@ -17,6 +17,7 @@ import (
 	"go/types"
 	"sort"
 	"strings"
+	"time"
 
 	"golang.org/x/tools/go/ssa"
 )
@@ -507,4 +508,75 @@ func c06Discipline(run *PropRun) {
 	// which finish closes quit no longer matters for Fini returning: the clause demanded more than the property and
 	// was removed; closeFirst is kept in the evidence only.)
 	run.Extra["finish_closes_quit_before_finalize"] = closeFirst
+}
+
+// c06LifecycleSmoke: bounded native stand-in that is run on every check (the modular clauses are conditional on the
+// window query succeeding, and a repair of engage that satisfied the first version of them hung every Show after a
+// plain Suspend/Resume): Init, Show, then for each scenario Suspend, [window change], Resume, Show, Sync, and finally
+// Fini - each call has to return within 3 s. Scenarios: the window unchanged; shrunk while suspended and grown back
+// after Resume; grown while suspended.
+func c06LifecycleSmoke(run *PropRun) {
+	src := replayTest("tcell", []string{"time", modPath + "/terminfo", "_ " + modPath + "/terminfo/base"}, `
+	ti, err := terminfo.LookupTerminfo("xterm")
+	if err != nil { fail("no xterm description: %v", err); return }
+	within := func(what string, f func()) bool {
+		done := make(chan struct{})
+		go func() { f(); close(done) }()
+		select {
+		case <-done:
+			return true
+		case <-time.After(3 * time.Second):
+			fail("%s did not return within 3s", what)
+			return false
+		}
+	}
+	type step struct{ w, h int }
+	for si, sc := range [][2]step{{{80, 24}, {80, 24}}, {{40, 10}, {80, 24}}, {{120, 50}, {120, 50}}} {
+		tty := &c06SmokeTty{w: 80, h: 24, wake: make(chan struct{}, 16)}
+		s, err := NewTerminfoScreenFromTtyTerminfo(tty, ti)
+		if err != nil { fail("new screen: %v", err); return }
+		if err := s.Init(); err != nil { fail("init: %v", err); return }
+		s.SetContent(1, 1, 'x', nil, StyleDefault)
+		if !within(fmt.Sprintf("scenario %d: Show", si), s.Show) { return }
+		if !within(fmt.Sprintf("scenario %d: Suspend", si), func() { s.Suspend() }) { return }
+		tty.set(sc[0].w, sc[0].h)
+		if !within(fmt.Sprintf("scenario %d: Resume", si), func() { s.Resume() }) { return }
+		s.SetContent(2, 1, 'y', nil, StyleDefault)
+		if !within(fmt.Sprintf("scenario %d: Show after Resume (window %dx%d while suspended)", si, sc[0].w, sc[0].h), s.Show) { return }
+		tty.set(sc[1].w, sc[1].h)
+		if !within(fmt.Sprintf("scenario %d: Sync after the window became %dx%d", si, sc[1].w, sc[1].h), s.Sync) { return }
+		if w, h := s.Size(); w != sc[1].w || h != sc[1].h { fail("scenario %d: Size() = %dx%d after Sync, the window is %dx%d", si, w, h, sc[1].w, sc[1].h); return }
+		if !within(fmt.Sprintf("scenario %d: Fini", si), s.Fini) { return }
+	}`) + `
+type c06SmokeTty struct {
+	mu   sync.Mutex
+	w, h int
+	wake chan struct{}
+}
+
+func (t *c06SmokeTty) set(w, h int)                    { t.mu.Lock(); t.w, t.h = w, h; t.mu.Unlock() }
+func (t *c06SmokeTty) Read(p []byte) (int, error)      { <-t.wake; return 0, nil }
+func (t *c06SmokeTty) Write(p []byte) (int, error)     { return len(p), nil }
+func (t *c06SmokeTty) Close() error                    { return nil }
+func (t *c06SmokeTty) Start() error                    { return nil }
+func (t *c06SmokeTty) Stop() error                     { return nil }
+func (t *c06SmokeTty) Drain() error                    { select { case t.wake <- struct{}{}: default: }; return nil }
+func (t *c06SmokeTty) NotifyResize(cb func())          {}
+func (t *c06SmokeTty) WindowSize() (WindowSize, error) { t.mu.Lock(); defer t.mu.Unlock(); return WindowSize{Width: t.w, Height: t.h}, nil }
+`
+	src = strings.Replace(src, "import (\n", "import (\n\t\"sync\"\n", 1)
+	out, err := runOverlayTest(run.Eng.Repo, run.Eng.Repo, src, 120*time.Second, nil)
+	ok, detail := false, ""
+	switch {
+	case strings.Contains(out, "VERIF-REPLAY-FAIL"):
+		detail = firstLine(out[strings.Index(out, "VERIF-REPLAY-FAIL"):])
+	case strings.Contains(out, "VERIF-REPLAY-PASS"):
+		ok = true
+	default:
+		run.Errors = append(run.Errors, fmt.Sprintf("lifecycle smoke run did not complete: %v %s", err, tail(out, 400)))
+		return
+	}
+	g := run.AddObligation("tScreen/suspend-resume-show-fini-return", "bounded", BoolT(ok),
+		"native, scripted tty: Init, Show, Suspend, (window change), Resume, Show, Sync, Fini each return within 3 s and Size() follows the window - unchanged window, shrunk while suspended and back, grown while suspended "+detail)
+	g.ReplayGo = src
 }
